@@ -169,7 +169,8 @@ namespace
         TT now = 0;
         Trace *tr = nullptr;
         int executing = -1;
-        uint64_t callbacks = 0, fires_this_exec = 0;
+        uint64_t callbacks = 0, fires_this_exec = 0, callback_cap = 500000;
+        size_t nops_in_plan = 0;
         bool pending_changed = false;
         int n = 0;
         bool in_exec = false;
@@ -187,6 +188,7 @@ namespace
             int64_t origin = r.pick<int64_t>({1000, 1000, 0, -30, -3000, 5});
             p.cfg = {nt, origin, r.chance(1, 3) ? 1 : 0, (int64_t)r.below(6)};
             int nops = (int)r.range(5, tier == THOROUGH ? 120 : 60);
+            if (r.chance(1, 40)) nops *= 8; // a long history: what only accumulates over hundreds or thousands of operations
             auto interval = [&]() -> int64_t {
                 if (equal_deadlines) return r.pick<int64_t>({1, 2, 4}) * period;
                 return r.range(1, 12 * period);
@@ -338,7 +340,7 @@ namespace
             fires_this_exec++;
             tr->ev("fire t%d now=%.17g", id, (double)now);
             if (!in_exec) violate("C16/fire-outside-exec", "timer %d fired outside exec", id);
-            if (callbacks > 500000) violate("C16/livelock", "more than 500000 callbacks in one run");
+            if (callbacks > callback_cap) violate("C16/livelock", "more than %llu callbacks in one run of %zu operations", (unsigned long long)callback_cap, nops_in_plan);
             Model &m = model[id];
             if (!m.planned) violate("C16/unplanned-fired", "timer %d fired while not planned (now=%.17g)", id, (double)now);
             if (!m.due(now))
@@ -429,6 +431,8 @@ namespace
             now = (TT)origin * S;
             if (origin <= 0) probe("time_origin_not_positive");
             callbacks = 0;
+            nops_in_plan = p.ops.size();
+            callback_cap = 500000 + 20000ull * p.ops.size(); // (safety net against a timer that fires for ever; scales with the history)
             pending_changed = false;
             in_exec = false;
             bool catchup = false;
@@ -565,6 +569,7 @@ namespace
             int nt = (int)r.range(1, 4);
             p.cfg = {nt, r.pick<int64_t>({500, 0, -25, -2000, 3})};
             int nops = (int)r.range(5, tier == THOROUGH ? 150 : 60);
+            if (r.chance(1, 40)) nops *= 8; // a long history: what only accumulates over hundreds or thousands of operations
             for (int i = 0; i < nops; i++)
             {
                 int k = (int)r.below(7);
